@@ -15,7 +15,7 @@ from windpyutils.parallel import storage as stmod
 from windpyutils.parallel.storage import TextFileStorage
 
 from vf.bmc.values import CInt
-from vf.bmc.intrinsics import v_param, v_assert, v_text, v_texts_match, v_role
+from vf.bmc.intrinsics import v_param, v_assert, v_text, v_texts_match, v_role, v_storage_files_left
 
 DIR = "/vf/storage"
 
@@ -118,6 +118,10 @@ def expect_absent(st, g):
         pass
 
 
+def total_files(w2):
+    return 1 if w2 is None else 2
+
+
 def scenario_storage(st, w1, w2, rd, total, G, inspect=True):
     # identifiers of all writes are pairwise distinct by construction (write_id)
     a = write_id(0, G)
@@ -139,6 +143,24 @@ def scenario_storage(st, w1, w2, rd, total, G, inspect=True):
     if rd is not None:
         rd.join()
     if not inspect:
+        st.close()
+        return
+    if inspect == "flush":
+        # ---- flush() removes all files and resets the storage (every process has closed it)
+        st.close()
+        v_assert(v_storage_files_left() == total_files(w2), "every-writer-left-one-file-before-flush")
+        st.flush()
+        v_assert(v_storage_files_left() == 0, "flush-removes-all-files")
+        v_assert(len(st) == 0, "flush-resets-len")
+        v_assert(st.is_contiguous(), "flush-resets-is_contiguous")
+        out = []
+        for x in st:
+            out.append(x)
+        v_assert(len(out) == 0, "flush-leaves-nothing-to-iterate")
+        expect_absent(st, a)
+        st[a] = v_text(a)  # the storage is usable again and starts from scratch
+        v_assert(len(st) == 1, "store-after-flush")
+        expect_stored(st, a)
         st.close()
         return
     # ---- the parent inspects the storage after every writer has finished
@@ -226,7 +248,7 @@ def make(cfg, ctx, mode, ctrl=None, restore=None):
         rd._vf_name = "reader"
     info = {"list_caps": {("scenario_storage", "out"): G, ("scenario_storage", "exp"): 3}, "default_cap": max(G, NF, 3), "dict_keys": G + 1,
             "storage_files": D, "shared_prims": ["index", "paths", "cnt", "waiting", "lock", "D"]}
-    return {"scenario": scenario_storage, "args": (st, w1, w2, rd, CInt(total), CInt(G), bool(cfg.get("inspect", True))), "info": info}
+    return {"scenario": scenario_storage, "args": (st, w1, w2, rd, CInt(total), CInt(G), (cfg.get("inspect", True) if cfg.get("inspect", True) == "flush" else bool(cfg.get("inspect", True)))), "info": info}
 
 
 # ---------------------------------------------------------------------------------------------------- replay
@@ -273,7 +295,7 @@ def custom_replay(spec):
             return fw.gated(self._name + ".append", self._real.append, x)
 
         def __iter__(self):
-            return iter(list(self._real))
+            return iter(fw.gated(self._name + ".iter", lambda: list(self._real)))
 
     class GValue:
         def __init__(self, real, name):
@@ -384,6 +406,16 @@ def custom_replay(spec):
         intr.REPLAY["on_assert"] = lambda label: fw.send("ASSERT %s %s" % (fw.me[0], label))
         intr.REPLAY["on_role"] = fw.set_role
         stmod.open = gated_open
+
+        class OsShim:  # os.remove of a storage file is a step of the model ("D.remove")
+            def __getattr__(self, n):
+                return getattr(os, n)
+
+            @staticmethod
+            def remove(p):
+                return fw.gated("D.remove", os.remove, p)
+
+        stmod.os = OsShim()
         G = cfg.get("ids", 3)
         w1n, w2n, reads = cfg.get("w1", 1), cfg.get("w2", 0), cfg.get("reads", 0)
         total = w1n + w2n
@@ -425,7 +457,8 @@ def custom_replay(spec):
             rd._vf_name = "reader"
             wrap_run(rd)
         try:
-            scenario_storage(st, w1, w2, rd, total, G, bool(cfg.get("inspect", True)))
+            intr.REPLAY["storage_dir"] = d
+            scenario_storage(st, w1, w2, rd, total, G, cfg.get("inspect", True) if cfg.get("inspect", True) == "flush" else bool(cfg.get("inspect", True)))
         except BaseException as e:  # noqa
             fw.send("UNCAUGHT main %s" % type(e).__name__)
         finally:
